@@ -255,6 +255,9 @@ custom_fail(IMB_JOB *job)
 int hx_docsis_shape = -1; /* DOCSIS+CRC32: 0 cipher without CRC, 1 CRC without cipher, 2 both, -1 random */
 int hx_len_long; /* when set: lengths 520..3520 */
 int hx_full_tags;
+/* the manager that will execute the job when another manager's helpers prepare the keys (reference driver, interchange):
+ * GCM / GMAC / GHASH key data is laid out per architecture (union in struct gcm_key_data) and is not portable */
+IMB_MGR *hx_exec_mgr;
 uint64_t hx_key_salt; /* non-zero: keys are drawn from this salt instead of the job's seed */
 int hx_data_patterns; /* set by the reference and cross-variant drivers: structured messages / keys for some seeds */
 long hx_force_len = -1; /* when >= 0 every generated message length is this value (rounded to the mode's granularity) */
@@ -749,18 +752,19 @@ hx_job_build(IMB_MGR *mgr, const hx_spec *sp, int id, hx_job *j)
         }
         case KT_GCM: {
                 struct gcm_key_data *gk = kalloc(j, sizeof(struct gcm_key_data), 64, "gcm_key");
+                IMB_MGR *gm = hx_exec_mgr ? hx_exec_mgr : mgr;
                 if (sp->kl == 16)
-                        IMB_AES128_GCM_PRE(mgr, j->rawkey, gk);
+                        IMB_AES128_GCM_PRE(gm, j->rawkey, gk);
                 else if (sp->kl == 24)
-                        IMB_AES192_GCM_PRE(mgr, j->rawkey, gk);
+                        IMB_AES192_GCM_PRE(gm, j->rawkey, gk);
                 else
-                        IMB_AES256_GCM_PRE(mgr, j->rawkey, gk);
+                        IMB_AES256_GCM_PRE(gm, j->rawkey, gk);
                 t->enc_keys = t->dec_keys = gk;
                 break;
         }
         case KT_SM4GCM: {
                 struct gcm_key_data *gk = kalloc(j, sizeof(struct gcm_key_data), 64, "sm4gcm_key");
-                imb_sm4_gcm_pre(mgr, j->rawkey, gk);
+                imb_sm4_gcm_pre(hx_exec_mgr ? hx_exec_mgr : mgr, j->rawkey, gk);
                 t->enc_keys = t->dec_keys = gk;
                 break;
         }
@@ -875,12 +879,13 @@ hx_job_build(IMB_MGR *mgr, const hx_spec *sp, int id, hx_job *j)
         }
         case HT_GMAC: {
                 struct gcm_key_data *gk = kalloc(j, sizeof(struct gcm_key_data), 64, "gmac_key");
+                IMB_MGR *gm = hx_exec_mgr ? hx_exec_mgr : mgr;
                 if (h->kl == 16)
-                        IMB_AES128_GCM_PRE(mgr, j->rawakey, gk);
+                        IMB_AES128_GCM_PRE(gm, j->rawakey, gk);
                 else if (h->kl == 24)
-                        IMB_AES192_GCM_PRE(mgr, j->rawakey, gk);
+                        IMB_AES192_GCM_PRE(gm, j->rawakey, gk);
                 else
-                        IMB_AES256_GCM_PRE(mgr, j->rawakey, gk);
+                        IMB_AES256_GCM_PRE(gm, j->rawakey, gk);
                 uint8_t *aiv = kalloc(j, 12, 1, "gmac_iv");
                 hx_fill(&r, aiv, 12);
                 t->u.GMAC._key = gk;
@@ -891,7 +896,7 @@ hx_job_build(IMB_MGR *mgr, const hx_spec *sp, int id, hx_job *j)
         }
         case HT_GHASH: {
                 struct gcm_key_data *gk = kalloc(j, sizeof(struct gcm_key_data), 64, "ghash_key");
-                IMB_GHASH_PRE(mgr, j->rawakey, gk);
+                IMB_GHASH_PRE(hx_exec_mgr ? hx_exec_mgr : mgr, j->rawakey, gk);
                 uint8_t *it = kalloc(j, 16, 1, "ghash_init");
                 hx_fill(&r, it, 16);
                 t->u.GHASH._key = gk;
